@@ -99,6 +99,11 @@ func TestC17(t *testing.T) {
 				ovSeed = sdk.NewCoins(sdk.NewInt64Coin("aa1", 777_000), sdk.NewInt64Coin("zz1", 333_000))
 				otherDenomSeeds++
 			}
+			if bd := v.BondDenom(); bd != Denom && rapid.Bool().Draw(t, fmt.Sprintf("seed%d_vestsBondDenom", i)) {
+				// on a chain whose bond denomination is not the vesting denomination the account may vest (and stake) that too
+				ovSeed = ovSeed.Add(sdk.NewInt64Coin(bd, 444_000))
+				otherDenomSeeds++
+			}
 			makeCVA(v, addr, ovSeed, nowS-100, nowS+int64(rapid.IntRange(1000, 10_000_000).Draw(t, fmt.Sprintf("seed%d_len", i))), sdk.NewCoins(sdk.NewInt64Coin(Denom, 500_000)))
 			switch rapid.IntRange(0, 2).Draw(t, fmt.Sprintf("seed%d_kind", i)) {
 			case 0:
@@ -331,7 +336,7 @@ func TestC17(t *testing.T) {
 					t.Skip("no vesting accounts")
 				}
 				a := mustAddr(order[rapid.IntRange(0, len(order)-1).Draw(t, "who")])
-				amt := randBelow(t, "amt", v.Bal(a).AmountOf(Denom))
+				amt := randBelow(t, "amt", v.Bal(a).AmountOf(v.BondDenom()))
 				if !amt.IsPositive() {
 					t.Skip("nothing to delegate")
 				}
